@@ -257,6 +257,13 @@ func (t *SessionTeardown) cleanup(session *Session, cause TerminateCause) error 
 	t.mu.Lock()
 	defer t.mu.Unlock()
 
+	// Two terminations of one session (e.g. a client PADT racing an
+	// administrative disconnect) must clean up once: one Accounting-Stop, one
+	// address release
+	if session.GetState() == StateClosed {
+		return nil
+	}
+
 	ctx, cancel := context.WithTimeout(context.Background(), t.config.CleanupTimeout)
 	defer cancel()
 
